@@ -15,23 +15,33 @@ def run(ctx):
               "the 2048-byte read size for long streams, random k-cuts by simulation); replayed on of_01.Connection.read "
               "and on OFConnection.read; after every read the messages delivered (identity, bytes) and the residual "
               "buffer length are compared; distinct = distinct (stream, segmentation)")
-  ctx.assumptions = ["streams of 1-3 messages with lengths 8, 9, 12, 16, 64, 72, 88, 1518, 2040-2056",
+  ctx.assumptions = ["streams of 1-3 messages with lengths 8, 9, 12, 16, 64, 72, 88, 1518, 2040-2056, 40000, 65535",
                      "controller reads are capped at its recv(2048); the switch side is fed through IOWorker._push_receive_data"]
-  cfgs = ["MC_small2", "MC_mediumQ", "MC_bigQ", "MC_dribble"] if quick else \
-         ["MC_small", "MC_medium", "MC_big", "MC_big4", "MC_dribble"]
+  cfgs = ["MC_small2", "MC_mediumQ", "MC_bigQ", "MC_dribble", "MC_huge", "MC_hugeC"] if quick else \
+         ["MC_small", "MC_medium", "MC_big", "MC_big4", "MC_dribble", "MC_huge", "MC_hugeC"]
   first = None
-  for c in cfgs:
-    r = tlc.run("framing", "MCFraming", c + ".cfg", tag="C02", timeout=2400)
+  results = tlc.run_many([dict(spec_dir="framing", module="MCFraming", cfg=c + ".cfg", tag="C02", timeout=2400,
+                               workers=4) for c in cfgs], parallel=4)
+  for c, r in zip(cfgs, results):
     if r.violated:
       raise tlc.TLCError("Framing.tla violates %s (%s):\n%s" % (r.violated, c, r.error_trace[:2000]))
-    tlc.require_coverage(r, ["Choose", "Read"], c)
+    tlc.require_coverage(r, ["Choose"], c)
+    if r.coverage.get("Read", (0, 0))[1] + r.coverage.get("ReadAny", (0, 0))[1] == 0:   # TLC names it either way
+      raise tlc.TLCError("vacuous model run %s: Read never taken" % c)
     ctx.add_model("Framing " + c, r)
     behs = r.tagged("H")
     if not behs:
       raise tlc.TLCError("no behaviours exported by " + c)
-    for side in ("ctl", "sw"):
-      st = core.replay(ctx, AD, behs, params=dict(side=side), chunk=300, nontrivial=lambda b: len(b) > 1)
-      ctx.notes["replay %s on %s" % (c, side)] = dict(behaviours=len(behs), **st)
+    # sides: controller reader (reads capped at 2048), switch reader fed directly, and the switch reader
+    # behind the real I/O loop with a worker that is still in its connecting state
+    sides = ("ctl",) if c == "MC_hugeC" else ("sw", "swloop") if c == "MC_huge" else ("ctl", "sw", "swloop")
+    for side in sides:
+      bb = behs
+      if side == "swloop" and len(bb) > (1500 if quick else 20000):
+        import random
+        bb = random.Random(ctx.seed).sample(bb, 1500 if quick else 20000)
+      st = core.replay(ctx, AD, bb, params=dict(side=side), chunk=300, nontrivial=lambda b: len(b) > 1)
+      ctx.notes["replay %s on %s" % (c, side)] = dict(behaviours=len(bb), **st)
     if first is None and core.replay.last_ok:
       first = behs[core.replay.last_ok[-1]]
   num = 300 if quick else 5000
@@ -40,7 +50,7 @@ def run(ctx):
   behs = r.tagged("H")
   if len(behs) < num // 2:
     raise tlc.TLCError("simulation exported only %d behaviours" % len(behs))
-  for side in ("ctl", "sw"):
+  for side in ("ctl", "sw", "swloop"):
     st = core.replay(ctx, AD, behs, params=dict(side=side), chunk=100)
     ctx.notes["replay random segmentations on %s" % side] = dict(behaviours=len(behs), **st)
   # negative control
